@@ -45,12 +45,23 @@ package daemon
 //@   # the result is a function of the configuration (assumed: nobody edits the Config between two calls)
 //@   ensures-assumed len(result) == sgCount(c)
 
-//@ for C15 C18
+//@ for C15 C18 C20
 //@ # a configuration read from the ConfigMap is usable and names at most ten security groups
+//@ ghost c20base string = ""
+//@ ghost c20top string = ""
+//@ ghost c20n int = 0
 //@ func ConfigFromConfigMap
 //@   requires client != nil
 //@   panics
 //@   ensures result1 == nil ==> result0 != nil && sgCount(result0) <= 10
+//@   # layering on the control-plane path: the cluster eni-config text is the base, the node's dynamic config text the
+//@   # overlay; an empty (or absent) overlay changes nothing, otherwise the result is decoded from mp(base, overlay)
+//@   # (the first ConfigMap read is the cluster config, any later one the node's)
+//@   at call eniConfigFromConfigMap: ghost c20base = ite(c20n == 0, result0, c20base)
+//@   at call eniConfigFromConfigMap: ghost c20top = ite(c20n == 0, c20top, result0)
+//@   at call eniConfigFromConfigMap: ghost c20n = c20n + 1
+//@   ensures result1 == nil && len(c20top) == 0 ==> jsonOf(result0) == strBlob(c20base)
+//@   ensures result1 == nil && len(c20top) > 0 ==> jsonOf(result0) == mergePatch(strBlob(c20base), strBlob(c20top))
 //@ for C15 C18 C20
 
 //@ func Config.GetVSwitchIDs
